@@ -5,9 +5,9 @@ import vlib, tungen, tlcsched, tunnel_check, router_props
 # exhaustive configurations (Tunnel.tla), spec x observer simulation configs (MC_Tun.tla)
 # quick: configurations explored COMPLETELY in seconds (deterministic state counts); thorough: the same plus larger ones,
 # those that do not end are time-boxed (BOXED) and report complete = false
-MC = {'C03': (['MC_C03_q.cfg', 'MC_C03_2s.cfg', 'MC_C03_tcp.cfg'], ['MC_C03_q.cfg', 'MC_C03_2s.cfg', 'MC_C03_tcp.cfg', 'MC_C03_t.cfg']),
-      'C04': (['MC_C04_q.cfg'], ['MC_C04_q.cfg', 'MC_C04_t.cfg']),
-      'C05': (['MC_C05_q.cfg'], ['MC_C05_q.cfg', 'MC_C05_t.cfg']),
+MC = {'C03': (['MC_C03_q.cfg', 'MC_C03_2s.cfg', 'MC_C03_tcp.cfg', 'MC_C05_ws.cfg'], ['MC_C03_q.cfg', 'MC_C03_2s.cfg', 'MC_C03_tcp.cfg', 'MC_C05_ws.cfg', 'MC_C03_t.cfg']),
+      'C04': (['MC_C04_q.cfg'], ['MC_C04_q.cfg', 'MC_C05_wr.cfg', 'MC_C04_t.cfg']),
+      'C05': (['MC_C05_q.cfg', 'MC_C05_ws.cfg'], ['MC_C05_q.cfg', 'MC_C05_ws.cfg', 'MC_C05_wr.cfg', 'MC_C05_t.cfg']),
       'C09': (['MC_C09_q.cfg'], ['MC_C09_q.cfg', 'MC_C09_m.cfg', 'MC_C09_t.cfg']),
       'C10': (['MC_C10_q.cfg'], ['MC_C10_q.cfg', 'MC_C10_m.cfg', 'MC_C10_b.cfg', 'MC_C10_t.cfg']),
       'C17': (['MC_C17_q.cfg'], ['MC_C17_q.cfg'])}
